@@ -132,7 +132,7 @@ func runEvalConcurrent(c EvalCase, rec *h.Rec) error {
 	return nil
 }
 
-var propEvalConc = h.NewProp("TestPropConcurrentEvaluators", h.Budget{Quick: 160, Thorough: 6400},
+var propEvalConc = h.NewProp("TestPropConcurrentEvaluators", h.Budget{Quick: 160, Thorough: 3200},
 	func(t *rapid.T) EvalCase { return genEvalCase(t, true) }, runEvalConcurrent)
 
 func TestPropConcurrentEvaluators(t *testing.T) { propEvalConc.Check(t) }
